@@ -115,7 +115,7 @@ theorem step_cases {h : Heap} (I : h.Inv) (op : Op) :
         (id :: h'.arr).Perm h.arr ∧ h'.data = (h.upd id clearF).data) ∨
     (∃ id, op = .cancel id ∧ id ∉ h.arr ∧
         h.step op = (h, if id < h.fut.length then .ok else .undefined)) ∨
-    (∃ id h', (op = .rawPop ∨ ∃ now, op = .popIfDue now ∧ h.key id < now) ∧ h.arr.head? = some id ∧
+    (∃ id h', (op = .rawPop ∨ ∃ now, op = .popIfDue now ∧ h.key id ≤ now) ∧ h.arr.head? = some id ∧
         h.step op = (h', popOut h id) ∧ h'.Inv ∧ (id :: h'.arr).Perm h.arr ∧ h'.data = h.data) ∨
     ((∃ now, op = .popIfDue now) ∧ h.step op = (h, .notDue)) ∨
     ((op = .rawPop ∨ ∃ now, op = .popIfDue now) ∧ h.step op = (h, .empty)) := by
@@ -134,15 +134,15 @@ theorem step_cases {h : Heap} (I : h.Inv) (op : Op) :
       refine Or.inr (Or.inr (Or.inr (Or.inr (Or.inr ⟨Or.inr ⟨now, rfl⟩, ?_⟩))))
       simp only [Heap.step, c, List.head?_nil]
     | cons hd tl =>
-      by_cases due : now > h.key hd
+      by_cases due : h.key hd ≤ now
       · obtain ⟨h', e, r⟩ := pop_spec I hd tl c
         refine Or.inr (Or.inr (Or.inr (Or.inl ⟨hd, h', Or.inr ⟨now, rfl, due⟩, by simp, ?_, ?_⟩)))
-        · have due' : now > ((h.get hd).map (·.fireT)).getD 0 := due
+        · have due' : now ≥ ((h.get hd).map (·.fireT)).getD 0 := due
           simp only [Heap.step, c, List.head?_cons, if_pos due']
           rw [e]; rfl
         · rw [← c]; exact r
       · refine Or.inr (Or.inr (Or.inr (Or.inr (Or.inl ⟨⟨now, rfl⟩, ?_⟩))))
-        have due' : ¬ now > ((h.get hd).map (·.fireT)).getD 0 := due
+        have due' : ¬ now ≥ ((h.get hd).map (·.fireT)).getD 0 := due
         simp only [Heap.step, c, List.head?_cons, if_neg due']
   | rawPop =>
     cases c : h.arr with
